@@ -350,10 +350,10 @@ func c15Callers(c *eng.Ctx) {
 		sc := c15Sites(f, `^certutil\.SignCertificate$`)
 		if c.Floor(f, "certutil.SignCertificate call", len(sc), 1) {
 			for _, s := range sc {
-				c.Prov(f, "bundle signed by signCert", s.Call, s.Arg(0), `^call:pki\.generateCreationBundle#0$`)
+				c15Prov(c, f, "bundle signed by signCert", s.Call, s.Arg(0), `^call:pki\.generateCreationBundle#0$`)
 			}
 			c.Clause("R2", "C15.1")
-			c.Cut(f, "certutil.SignCertificate", c15SiteAts(sc), eng.GCallOK(f, `^pki\.generateCreationBundle$`), nil)
+			c.Cut(f, "certutil.SignCertificate", c15SiteAts(sc), c15GCallOK(f, `^pki\.generateCreationBundle$`), nil)
 		}
 	}
 	if f := c.Fn("pki.generateCert"); f != nil {
@@ -361,16 +361,16 @@ func c15Callers(c *eng.Ctx) {
 		gc := c15Sites(f, `^pki\.generateCABundle$`)
 		if c.Floor(f, "generateCABundle call", len(gc), 1) {
 			for _, s := range gc {
-				c.Prov(f, "bundle issued by generateCert", s.Call, s.Arg(2), `^call:pki\.generateCreationBundle#0$`)
+				c15Prov(c, f, "bundle issued by generateCert", s.Call, s.Arg(2), `^call:pki\.generateCreationBundle#0$`)
 			}
 			c.Clause("R2", "C15.1")
-			c.Cut(f, "generateCABundle", c15SiteAts(gc), eng.GCallOK(f, `^pki\.generateCreationBundle$`), nil)
+			c.Cut(f, "generateCABundle", c15SiteAts(gc), c15GCallOK(f, `^pki\.generateCreationBundle$`), nil)
 		}
 	}
 	if f := c.Fn("pki.generateCABundle"); f != nil {
 		c.Clause("R5", "C15.1")
 		for _, s := range c15Sites(f, `^certutil\.CreateCertificate`) {
-			c.Prov(f, "bundle handed to certutil", s.Call, s.Arg(0), `^param:data$`)
+			c15Prov(c, f, "bundle handed to certutil", s.Call, s.Arg(0), `^param:data$`)
 		}
 		// the wrapper does not touch the parameters
 		st := eng.Stores(f, `\.Params(\.|$)`)
@@ -449,7 +449,7 @@ func c15CABit(c *eng.Ctx) {
 				continue
 			}
 			c.Clause("R5", "C15.2")
-			c.Prov(w.Fn, "value of Params.IsCA", w.Store, w.Store.Val, `^param:isCA$`)
+			c15Prov(c, w.Fn, "value of Params.IsCA", w.Store, w.Store.Val, `^param:isCA$`)
 			c.Clause("R6", "C15.2")
 		}
 		c.Floor(nil, "writers of CreationParameters.IsCA", n, 2)
@@ -506,10 +506,10 @@ func c15CABit(c *eng.Ctx) {
 		}
 		c.Clause("R5", "C15.2")
 		for _, s := range calls {
-			c.Prov(f, "signing bundle of a leaf issuance", s.Call, s.Arg(2), strings.TrimSuffix(strings.Replace(h.fetch, "^", "^call:", 1), "$")+`#0$`)
+			c15Prov(c, f, "signing bundle of a leaf issuance", s.Call, s.Arg(2), strings.TrimSuffix(strings.Replace(h.fetch, "^", "^call:", 1), "$")+`#0$`)
 		}
 		c.Clause("R2", "C15.2")
-		c.Cut(f, "generateCert/signCert", c15SiteAts(calls), eng.GCallOK(f, h.fetch), nil)
+		c.Cut(f, "generateCert/signCert", c15SiteAts(calls), c15GCallOK(f, h.fetch), nil)
 	}
 	c.Clause("R4", "C15.2")
 	for _, fn := range []string{"pki.(*backend).fetchCaSigningBundle", "pki.(*storageContext).fetchCAInfoWithIssuer", "pki.(*storageContext).fetchCAInfoByIssuerId", "pki.(*storageContext).fetchCAInfo"} {
